@@ -3,9 +3,12 @@
    register-level transport T_reg with an arbitrary fault plan per call (any number of failing
    transactions at any positions).  Invariant: every register of the shadow configuration equals
    the chip's register (Coh).  It holds after construction and is preserved by every API call at
-   every exit — success, rejection, bus failure at any position, panic — hence after every history. *)
+   every exit — success, rejection, bus failure at any position, panic — hence after every history.
+   Over I2C the same holds at HAL level (one HAL call per transaction, the strapped address answers, a failed call is not
+   applied): proofs/I2cSim.v shows that the I2C transport and T_reg produce the same results, shadow and chip under the same
+   fault plan, for every program touching 7-bit addresses only (every API operation: step_aok) — c16_i2c_*. *)
 Require Import BMA.lib.Base BMA.lib.Reflect BMA.gen.GenTypes BMA.gen.GenPure BMA.lib.Prog BMA.gen.GenProg BMA.gen.GenMeta
-               BMA.lib.Encode BMA.gen.GenApi BMA.lib.Run BMA.lib.Driver BMA.proofs.Generic BMA.proofs.Rules BMA.proofs.Coherent.
+               BMA.lib.Encode BMA.gen.GenApi BMA.lib.Run BMA.lib.Driver BMA.proofs.Generic BMA.proofs.Rules BMA.proofs.Coherent BMA.proofs.I2cSim.
 From Coq Require Import Lia.
 Open Scope N_scope.
 
@@ -34,6 +37,38 @@ Proof.
   repeat (apply andb_prop in D; destruct D as [D ?]). apply N.eqb_eq in D. apply N.leb_le in H0. apply N.ltb_lt in H.
   unfold FIRST_CFG. replace (N.ltb a 25) with false by (symmetry; apply N.ltb_ge; lia). replace (N.ltb a 128) with true by (symmetry; apply N.ltb_lt; lia). exact D.
 Qed.
+
+(* ---- the same over I2C at HAL level ---- *)
+Definition call_i2c (dev : N) (w : world) (c : api_op * list N) : world := world_of (run (T_i2c dev) (step (fst c)) (begin_call (snd c) w)).
+Definition history_i2c (dev : N) (w : world) (cs : list (api_op * list N)) : world := fold_left (call_i2c dev) cs w.
+
+Lemma simo_world : forall A dev (o o' : outcome A), simo dev o o' -> simw dev (world_of o) (world_of o').
+Proof. intros A dev [a w|e w|w|w] [a' w'|e' w'|w'|w'] H; cbn [simo world_of] in *; try contradiction; try exact H; destruct H as [_ H]; exact H. Qed.
+
+Theorem c16_i2c_call_is_reg : forall dev op fl w, api_only op = true -> strap (hst w) = dev ->
+  simw dev (call_i2c dev w (op, fl)) (call w (op, fl)).
+Proof.
+  intros dev op fl w Hop Hs. unfold call_i2c, call. cbn [fst snd]. apply simo_world. apply i2c_is_reg; [apply step_aok; exact Hop|].
+  unfold simw, simh, begin_call. cbn [shadow hst hchip ncalls faults strap]. auto.
+Qed.
+
+Definition CohI (dev : N) (w : world) : Prop := Coh w /\ strap (hst w) = dev.
+
+Theorem c16_i2c_every_call : forall dev op fl w, api_only op = true -> CohI dev w -> CohI dev (call_i2c dev w (op, fl)).
+Proof.
+  intros dev op fl w Hop [Hc Hs]. destruct (c16_i2c_call_is_reg dev op fl w Hop Hs) as [Sd [C [_ [_ St]]]].
+  split; [|exact St]. pose proof (c16_every_call op fl w Hop Hc) as R. unfold Coh, wchip in *. rewrite Sd, C. exact R.
+Qed.
+
+Theorem c16_i2c_every_history : forall dev cs w, forallb (fun c => api_only (fst c)) cs = true -> CohI dev w -> CohI dev (history_i2c dev w cs).
+Proof.
+  intros dev. induction cs as [|c cs IH]; intros w Hc H; [exact H|].
+  cbn [forallb] in Hc. apply andb_prop in Hc. destruct Hc as [H1 H2]. cbn [history_i2c fold_left].
+  apply IH; [exact H2|]. destruct c as [op fl]. apply c16_i2c_every_call; assumption.
+Qed.
+
+Theorem c16_i2c_initial : forall s dev, CohI dev (init_world dev s).
+Proof. intros s dev. split; [apply c16_initial | reflexivity]. Qed.
 
 (* consequences named in the property *)
 (* get_data scales with the range bits the DEVICE holds (closes the history clause of C03) *)
